@@ -15,6 +15,7 @@ func init() {
 			"R15.2 the stream's Close is taken only under the closing option and is deferred before any I/O, and a closable source payload gets its Close deferred before any I/O on it, whatever its other interfaces; R15.3 reflect validity typestate: a reflect.Value obtained by Indirect/Elem is used (Type, Set*, Bytes, Len …) only under IsValid() — a typed nil pointer is a non-nil interface, so `data != nil` does not discharge it; " +
 			"R15.4 nil reader/writer/data are refused before use; R15.5 no aliasing: the bytes stored into a destination come from a buffer private to the call; R15.6 the JSON consumer preserves numbers (UseNumber) and the producer does not HTML-escape; the YAML encoder is closed. " +
 			"R15.2 also: the text producer asks for encoding.TextMarshaler before any other interface of the value (sibling of the consumer's TextUnmarshaler-first). " +
+			"R15.1 also: the only deferred calls whose error is ignored are closes; R15.2 also: every Close invoked on the stream itself sits behind the closing option. " +
 			"NOT decided: round-trip equality and chunk-exactness themselves (encoding/json, xml, yaml, bytes, io are trusted).",
 		Run: runC15,
 	})
